@@ -21,7 +21,8 @@ TRANSPARENT = re.compile(
     r"(std|alloc)::sync::Arc::<T(, A)?>::(new|clone|as_ref)|"
     r"(std|alloc)::boxed::Box::<T(, A)?>::(new|pin)|"
     r"(std|core)::pin::Pin::<.*>::(new|new_unchecked|as_mut|get_mut|into_inner)|"
-    r"(std|core)::option::Option::<T>::(as_ref|as_mut|as_deref|cloned|copied|take|unwrap|expect|unwrap_or_default)|"
+    r"(std|core)::option::Option::<T>::(as_ref|as_mut|as_deref|cloned|copied|take|unwrap|expect|unwrap_or_default|ok_or|ok_or_else)|"
+    r"(std|core)::str::<impl str>::(as_bytes|trim|trim_start|trim_end)|"
     r"(std|core)::result::Result::<T, E>::(as_ref|as_mut|unwrap|expect|map_err)|"
     r"<.* as (std|core)::future::IntoFuture>::into_future|(std|core)::future::IntoFuture::into_future|"
     r"<.* as (std|core)::iter::IntoIterator>::into_iter|(std|core)::iter::IntoIterator::into_iter|"
@@ -293,6 +294,8 @@ class Body:
         return 1 <= l <= self.argc
 
     # ---------------------------------------------------------------- provenance (backward)
+    unwrap_some = False   # when set, `Some(x)` / `Ok(x)` wrappers are looked through
+
     def origins(self, op, depth=12, transparent=TRANSPARENT, _seen=None):
         """Set of leaf descriptors an operand/place may come from.
         leaves: ('param', name, proj) ('upvar', name, proj) ('const', repr) ('static', path, proj)
@@ -386,6 +389,8 @@ class Body:
         if r == "agg":
             ak = rv.get("ak")
             if ak == "adt":
+                if self.unwrap_some and rv["var"] in ("Some", "Ok") and len(rv["o"]) == 1 and rv["adt"].endswith(("option::Option", "result::Result")):
+                    return self.origins(rv["o"][0], depth - 1, transparent, seen)
                 return {("agg", "%s::%s" % (rv["adt"], rv["var"]), bb, ())}
             if ak in ("closure", "coroutine", "coroutine_closure"):
                 return {("agg", "%s:%s" % (ak, rv["def"]), bb, ())}
